@@ -67,6 +67,17 @@ CHECKS = {
         'dict semantics ("last write wins") modelled as an association list; ids are the printed CURIE values (C04).',
         'Lean 4 proof (fold over the binding list) + exhaustive small-scope/random differential correspondence',
         'DESIGN.md §6 C06'),
+    'C09': (
+        'Lean 4 theorems (core): the count of t is the number of present annotations inside the module having t among their '
+        'ancestors-or-self (duplicate-free ancestor lists: C01), nothing outside the module is counted; the final table is c(t) when '
+        'positive, 1 for corpus terms under pseudocounts, absent otherwise, keys = positive final counts; counts never decrease towards '
+        'ancestors (also after the pseudocount pass); excluded annotations and item order are irrelevant. (Mathlib, reals): for counts '
+        '0 < c <= c\' <= p and base b > 1: IC(root) = 0, IC >= 0, IC(c\') <= IC(c); e > 1. Tie: random DAG ontologies x corpora x base x '
+        'pseudocount x module root; key set exact, each IC within 1e-9 of -log_b(c/p) from the model\'s integer counts, root 0, '
+        'non-negativity, monotonicity along edges, shuffle / excluded-dropped metamorphic runs.',
+        'math.log and float division are not modelled (tolerance 1e-9); graph closures are C01.',
+        'Lean 4 proof (counting argument + real-analysis consequences in Mathlib) + differential correspondence with tolerance',
+        'DESIGN.md §6 C09'),
     'C10': (
         'Lean 4 theorems for ARBITRARY groups / descendant lists / ancestor lists / IC maps (missing entries, non-monotone): same-'
         'branch pairs read the maximum IC over common ancestors (floor 0), every pair is symmetric, non-negative, bounded by that '
@@ -77,6 +88,19 @@ CHECKS = {
         'from the source at run time.',
         'Lean 4 proof (fold invariant over the visited pairs, container lemmas of C15) + differential correspondence',
         'DESIGN.md §6 C10'),
+    'C11': (
+        'Lean 4 theorems over items whose ids the ontology knows: the propagation validator reports (d, a) iff some item has primary '
+        'id d, a is a strict ancestor of d, some item has primary id a, and (descendant present or ancestor item excluded) — sound and '
+        'complete at any ancestor distance, nothing else reported; the obsolete-id validator warns exactly for items whose given id '
+        'is not the primary id; the abnormality validator exactly for items that are not strict descendants of Phenotypic '
+        'abnormality; the runner returns the concatenation in validator order; is_ok iff no results; frame theorem over an explicit '
+        'heap: validators only allocate and assign to their own copies, the caller\'s cells are unchanged. Tie: random ontologies '
+        'with alternate ids x item zoo (TermId, bool/callable/absent is_present, repeats) x all ordered validator subsets; multiset of '
+        '(level, category, ids in message) + is_ok + deep before/after snapshot.',
+        'message wording is free (ids extracted by a generic CURIE tokenizer); multiplicities follow the code (one error per '
+        'descendant item and ancestor term); lookups are C06, closures C01.',
+        'Lean 4 proof (exact characterisation of each validator + heap frame lemma) + differential correspondence',
+        'DESIGN.md §6 C11'),
     'C13': (
         'Lean 4 theorems for EVERY merge trace (the similarity measure, argmax, epsilon branch and cluster identifiers are an '
         'oracle): the clustering preserves the multiset of tagged leaves, the in-order walk lists each once, the position-queue '
